@@ -9,7 +9,7 @@ oracles:        documented result type; only parameter errors (MPilotError) are 
 import copy
 import os
 
-from .. import common, prog
+from .. import common, prog, progrun
 from ..common import enc_str
 
 PARAM_ERRORS = {"ParameterNotValid", "PathDoesNotExist", "InvalidRelativePath", "ResultDoesNotExist", "ResultTypeNotValid",
@@ -183,6 +183,74 @@ def same_clean(a, b):
         return x == y
 
 
+def program_purity(ctx):
+    """validation inside Program.run is cleaning too: after a run - successful, or stopped by a fault validated later - every argument still
+    holds the raw value it was given"""
+    from collections import OrderedDict
+    from mpilot.program import Program
+    from mpilot.arguments import Argument, ListArgument
+    m = prog.testlib()
+    rng = ctx.rng
+    for i in range(ctx.budget(10, 200)):
+        p = Program(libraries=(prog.TESTLIB,))
+        p.add_command(m.N, "A", OrderedDict())
+        p.add_command(m.N, "B", OrderedDict())
+        args = OrderedDict()
+        args["Many"] = ListArgument("Many", ["A", "B"], 3, [3, 3])
+        if rng.random() < 0.5:
+            args["Nested"] = ListArgument("Nested", [["A"], ["B", "A"]], 4, [4, 4])
+        args["One"] = Argument("One", "A", 5)
+        p.add_command(m.N, "C", args)
+        sargs = OrderedDict()
+        sargs["Req"] = Argument("Req", rng.choice(["7", 7, "x"]), 8)         # "x": a fault validated after the arguments of C
+        sargs["Nums"] = ListArgument("Nums", ["1", 2, "3.5"], 9, [9, 9, 9])
+        sargs["Bool"] = Argument("Bool", "true", 10)
+        sargs["DType"] = Argument("DType", "Float", 11)
+        p.add_command(m.S, "D", sargs)
+        before = [(n, [(a.name, snap(a.value)) for a in c.arguments]) for n, c in p.commands.items()]
+        rec = progrun.Recorder()
+        with progrun.stubbed([m.N, m.S], rec):
+            try:
+                p.run()
+                outcome = "ok"
+            except Exception as e:
+                outcome = type(e).__name__
+        after = [(n, [(a.name, snap(a.value)) for a in c.arguments]) for n, c in p.commands.items()]
+        ctx.case("program-purity %d %s" % (i, outcome), sample=None)
+        ctx.count("program_purity_cases")
+        if before != after:
+            diff = next((x, y) for x, y in zip(before, after) if x != y)
+            ctx.fail("Program.run (%s) altered raw arguments: %r became %r" % (outcome, diff[0], diff[1]), {"outcome": outcome})
+
+
+def documented_datatypes(ctx):
+    """data-type names are mapped to the documented types, per library, whatever other libraries the process has loaded"""
+    import numpy
+    from mpilot import params as P
+    from mpilot.libraries.eems.csv.io import EEMSRead as CsvRead
+    from mpilot.libraries.eems.netcdf.io import EEMSRead as NcRead
+    std = {"Float": float, "Integer": int}
+    nc = {"Float": numpy.float64, "Integer": int, "Positive Float": numpy.float64, "Positive Integer": numpy.uint, "Fuzzy": numpy.float64}
+    names = ["Float", "Integer", "Positive Float", "Positive Integer", "Fuzzy", "float", "String"]
+    subjects = [("DataTypeParameter()", P.DataTypeParameter(), std), ("csv EEMSRead.DataType", CsvRead.inputs["DataType"], std),
+                ("csv EEMSRead.ReturnType", CsvRead.inputs["ReturnType"], std), ("netcdf EEMSRead.DataType", NcRead.inputs["DataType"], nc)]
+    for label, param, table in subjects:
+        for n in names:
+            r = call_clean(param, n, None)
+            ctx.case("datatype %s %s" % (label, n), sample=None)
+            ctx.count("documented_datatype_cases")
+            want = table.get(n)
+            if want is None:
+                if not (r[0] == "mp" and r[1] == "ParameterNotValid"):
+                    ctx.fail("%s.clean(%r) = %r; %r is not a data type of this parameter (documented: %s)" % (label, n, r[:2], n, ", ".join(table)), {"parameter": label, "raw": n})
+            elif not (r[0] == "ok" and r[1] is want):
+                ctx.fail("%s.clean(%r) = %r, documented type %r" % (label, n, r[:2], want), {"parameter": label, "raw": n})
+        for t in set(table.values()):
+            r = call_clean(param, t, None)
+            if not (r[0] == "ok" and r[1] is t):
+                ctx.fail("%s: the already-clean value %r is not returned unchanged (%r)" % (label, t, r[:2]), {"parameter": label, "raw": repr(t)})
+
+
 def run(ctx):
     ctx.check_proofs(["MPilot.Props.C20"])
     model = common.Model()
@@ -251,6 +319,8 @@ def run(ctx):
                 if r1[0] == "ok":
                     r3c = call_clean(param, r1[1], program)
                 metas.append((desc, cname, r1, r3c, param))
+    documented_datatypes(ctx)
+    program_purity(ctx)
     answers = model.ask(lines)
     for line, (desc, cname, r1, r3, param), ans in zip(lines, metas, answers):
         impl = "ok" if r1[0] == "ok" else r1[0] + " " + r1[1]
